@@ -81,12 +81,18 @@ class VectorContainer:
     @staticmethod
     def _locate_period_in_span_fallback(period: Hashable, span: np.ndarray) -> int:
         """Fallback (static) location method, should other `span`-indexing methods fail."""
-        # Convert `span` to a NumPy array of type `object` and locate matches
-        locations = np.asarray(np.asarray(span, dtype=object) == period).nonzero()
+        # Convert `span` to a NumPy array of type `object` and locate matches,
+        # comparing the labels one at a time: a sequence-like `period` (e.g. a
+        # tuple) must not be broadcast against `span`, element by element
+        def matches(label: Hashable) -> bool:
+            result = label == period
+            return isinstance(result, (bool, np.bool_)) and bool(result)
+
+        labels = np.asarray(span, dtype=object)
 
         # For now(?), only support one-dimensional array-likes
-        assert len(locations) == 1
-        positions = locations[0]  # Take first (sole) set of axis indexes only
+        assert labels.ndim == 1
+        positions = [i for i, label in enumerate(labels) if matches(label)]
 
         # No matches: `period` not defined
         if len(positions) == 0:
